@@ -10,7 +10,7 @@
    site lists, and precedes the closes its site lists (see [conform]).
    Gen/Locks.v is regenerated from the source on every run; Race/Known.v lists the recorded pairs. *)
 From SC Require Import Base.Prelude Race.Lockset Race.LocksetProofs Race.WitnessProofs Race.Known
-  Race.C11Judge Gen.Locks.
+  Race.C11Judge Race.JudgeProofs Gen.Locks.
 
 (* in every well-formed trace an exclusive holder of a lock is its only holder *)
 Theorem C11_mutual_exclusion : forall p, wf p ->
@@ -65,8 +65,7 @@ Theorem C11_source_table_drf : forall tr p t1 s1 q t2 s2 r,
   hb tr (List.length p) (List.length p + 1 + List.length q).
 Proof.
   intros tr p t1 s1 q t2 s2 r W F E X.
-  destruct (lockset_sound [] lock_table tr p t1 s1 q t2 s2 r C11_discipline_holds W F E X) as [H|H];
-    [exact H|discriminate H].
+  exact (C11_check_implies_drf lock_table tr p t1 s1 q t2 s2 r C11_discipline_holds W F E X).
 Qed.
 Print Assumptions C11_source_table_drf.
 
@@ -102,15 +101,69 @@ Proof.
 Qed.
 Print Assumptions C11_nonvacuous_common_lock.
 
+(* the abstract table theorem: a table that passes the check has, for EVERY pair of conflicting rows,
+   a reason the model recognises: a common lock with one side exclusive, or an edge of the memory model
+   one row precedes and the other has observed (channel close, go statement, WaitGroup Done -> Wait,
+   publication of a constructed object), or both rows belong to one thread; [why] names the accepting
+   branch and answers exactly when [compatible] accepts *)
+Theorem C11_check_justifies : forall tb, check tb = true ->
+  forall a b, In a (t_sites tb) -> In b (t_sites tb) -> conflict a b = true ->
+  justified tb a b /\ exists r, why tb a b = Some r.
+Proof. exact check_justifies. Qed.
+Print Assumptions C11_check_justifies.
+
+Theorem C11_why_iff_compatible : forall tb a b,
+  compatible tb a b = true <-> exists r, why tb a b = Some r.
+Proof. exact compatible_iff_why. Qed.
+Print Assumptions C11_why_iff_compatible.
+
+(* headline over the regenerated table: every pair of conflicting access sites extracted from today's
+   source is justified by a lock or by a recognised happens-before edge, AND in every well-formed
+   execution that conforms to the table the two accesses are ordered by happens-before *)
+Theorem C11_table_pairs_ordered : forall a b,
+  In a (t_sites lock_table) -> In b (t_sites lock_table) -> conflict a b = true ->
+  (justified lock_table a b /\ exists r, why lock_table a b = Some r) /\
+  forall tr p t1 q t2 r, wf tr -> conform lock_table tr ->
+    tr = p ++ (t1, Acc a) :: q ++ (t2, Acc b) :: r ->
+    hb tr (List.length p) (List.length p + 1 + List.length q).
+Proof.
+  intros a b Ia Ib Cn. split; [exact (check_justifies _ C11_discipline_holds a b Ia Ib Cn)|].
+  intros tr p t1 q t2 r W F E. exact (C11_source_table_drf tr p t1 a q t2 b r W F E Cn).
+Qed.
+Print Assumptions C11_table_pairs_ordered.
+
+(* the three r3 seed classes as the translator extracts them from the seeded trees (Known.seed_..._table): each
+   breaks the table obligation, i.e. is caught without the detector *)
+Theorem C11_seed_classes_refuted :
+  check seed_commits_table = false /\ check seed_slice_table = false /\ check seed_header_table = false /\
+  check seed_fixed_table = true.
+Proof. repeat split; vm_compute; reflexivity. Qed.
+Print Assumptions C11_seed_classes_refuted.
+
+(* non-vacuity of the go-statement and WaitGroup edges: the rows of pkg/group's executeEach for the
+   result channel (send in a member goroutine, close after all.Wait() in the closer goroutine) pass the
+   check because of the WaitGroup edge, and a well-formed conforming execution orders them *)
+Example C11_nonvacuous_waitgroup :
+  check tbW = true /\ why tbW wg_send wg_close = Some (RWaitGroup (wg_chan "all" "G")) /\
+  wf trW /\ conform tbW trW /\
+  nth_error trW 5 = Some (2, Acc wg_send) /\ nth_error trW 10 = Some (3, Acc wg_close) /\ hb trW 5 10.
+Proof.
+  split; [exact check_tbW|]. split; [exact why_tbW|]. split; [exact wf_trW|]. split; [exact conform_trW|].
+  split; [reflexivity|]. split; [reflexivity|exact trW_ordered].
+Qed.
+Print Assumptions C11_nonvacuous_waitgroup.
+
 (* the judge used on the race-detector observations: verdict 0 on a pair means no race was seen
    on it, or it is a recorded pair that the table marks undisciplined *)
 Theorem C11_judge_sound : forall loc fa fb raced,
   judge (KPair loc fa fb raced) = 0 ->
   raced = false \/ (pair_known known_pairs loc fa fb = true /\ pair_disciplined lock_table loc fa fb = false).
-Proof.
-  intros loc fa fb raced H. destruct raced; [|left; reflexivity]. right.
-  unfold judge, agrees, C11_guard, C11_ok in H.
-  destruct (pair_known known_pairs loc fa fb); destruct (pair_disciplined lock_table loc fa fb);
-    cbn in H; try discriminate H; split; reflexivity.
-Qed.
+Proof. exact judge_pair_sound. Qed.
 Print Assumptions C11_judge_sound.
+
+(* and complete: since the table passes the check, every observation that agrees with the model
+   satisfies the predicate (no race on a pair; no unjustified pair in the harness's histogram; no
+   post-construction write without a reason) *)
+Theorem C11_judge_complete : forall c, agrees c = true -> C11_guard c = true -> C11_ok c = true.
+Proof. exact (judge_complete C11_discipline_holds). Qed.
+Print Assumptions C11_judge_complete.
